@@ -291,6 +291,11 @@ func (b *BlockWise[C]) WriteMessage(request *pool.Message, maxSZX SZX, maxMessag
 		return fmt.Errorf("cannot encode start sending message block option(%v,%v,%v): %w", maxSZX, 0, true, err)
 	}
 
+	if size, errS := request.BodySize(); errS == nil && size >= maxSZX.Size() && len(request.Token()) == 0 &&
+		(request.Code() == codes.POST || request.Code() == codes.PUT) {
+		// the blocks of an upload are held together by its token (Do refuses a request without one as well)
+		return errors.New("invalid token")
+	}
 	w := newWriteRequestResponse(b.cc, request)
 	err = b.startSendingMessage(w, maxSZX, maxMessageSize, startSendingMessageBlock)
 	if err != nil {
@@ -765,6 +770,13 @@ func (b *BlockWise[C]) getCachedReceivedMessage(mg *messageGuard, r *pool.Messag
 func (b *BlockWise[C]) processReceivedMessage(w *responsewriter.ResponseWriter[C], r *pool.Message, maxSzx SZX, next func(w *responsewriter.ResponseWriter[C], r *pool.Message), blockType message.OptionID, sizeType message.OptionID) error {
 	token := r.Token()
 	if len(token) == 0 {
+		// Transfers are kept by token; a message without one is handed on as it is. When it is one block of
+		// several it must not be: every block would be taken for a complete body.
+		if block, errB := r.GetOptionUint32(blockType); errB == nil {
+			if _, num, more, errD := DecodeBlockOption(block); errD == nil && (more || num > 0) {
+				return errors.New("cannot process a block of a block-wise transfer without a token")
+			}
+		}
 		next(w, r)
 		return nil
 	}
